@@ -873,11 +873,16 @@ namespace pika::threads::detail {
             for (thread_map_type::iterator it = thread_map_.begin(); it != end; ++it)
             {
                 auto thrd = threads::detail::get_thread_id_data(*it);
-                if (thrd->get_state().state() == threads::detail::thread_schedule_state::suspended)
-                {
-                    thrd->set_state(threads::detail::thread_schedule_state::pending,
-                        pika::threads::detail::thread_restart_state::abort);
+                auto const state = thrd->get_state();
 
+                // Only a thread that is still suspended when its state is changed may be
+                // rescheduled here: a thread that has been woken up in the meantime has already
+                // been queued by its waker and may even be running; overwriting its state and
+                // queueing it again would run it on two workers.
+                if (state.state() == threads::detail::thread_schedule_state::suspended &&
+                    thrd->restore_state(threads::detail::thread_schedule_state::pending,
+                        pika::threads::detail::thread_restart_state::abort, state))
+                {
                     // thread holds self-reference
                     PIKA_ASSERT(thrd->count_ > 1);
                     schedule_thread(threads::detail::thread_id_ref_type(thrd));
